@@ -481,6 +481,9 @@ func TestVerifCrash(t *testing.T) {
 			steps = append(steps, vcStep{kind: "remove"})
 		}
 	}
+	// every life ends with the pool's periodic clean-up: a restart cleans the pool as well (visor init), so lives are compared
+	// after the clean-up that an uncrashed node performs a little later anyway
+	steps = append(steps, vcStep{kind: "remove"})
 	P.db.Close()
 
 	// ---- the run that never crashes; every commit boundary is photographed
